@@ -118,3 +118,13 @@ def lemmas_lean(lemmas, imports=("HV.Consts",), cfg="realCfg"):
         L.append(f"theorem {lm.name} {binders} :\n    {v.v} = true := {lm.proof}\n")
     L.append("end HV")
     return "\n".join(L) + "\n"
+
+
+def all_gconds(ctx):
+    out = list(ctx.consts.gconds())
+    for fn in EXTRA_GCONDS:
+        out.extend(fn(ctx))
+    return out
+
+
+EXTRA_GCONDS = []
